@@ -75,6 +75,7 @@ type State struct {
 	defers []*deferred
 	roRefs map[string]string // backing stores that are read-only copies of array values
 	ginit  map[*types.Var]bool
+	ctxDone map[string]bool // contexts (by expression) known to be done on this path
 }
 
 func (s *State) clone() *State {
@@ -127,6 +128,12 @@ func (s *State) clone() *State {
 	c.roRefs = map[string]string{}
 	for k, v := range s.roRefs {
 		c.roRefs[k] = v
+	}
+	if s.ctxDone != nil {
+		c.ctxDone = map[string]bool{}
+		for k, v := range s.ctxDone {
+			c.ctxDone[k] = v
+		}
 	}
 	if s.ginit != nil {
 		c.ginit = map[*types.Var]bool{}
